@@ -60,15 +60,22 @@ def observe(case, variant=0):
                 out = TabularToSeriesAdaptor(MinMaxScaler()).fit_transform(s)
             return [[cell_vals(out)]]
         Xn = nested(X, cells)
-        if variant % 4 == 3 and len({len(c) for inst in X for c in inst}) == 1:
+        fitted = lambda tr: tr.fit(Xn)      # noqa: E731
+        if p.get("fit"):
+            # fitted on another panel: the one to transform plus one instance of the given length
+            Xfit = nested(list(X) + [[[1] * p["fit"] for _ in X[0]]], cells)
+            fitted = lambda tr: tr.fit(Xfit)      # noqa: E731
+        elif variant % 4 == 3 and len({len(c) for inst in X for c in inst}) == 1:
             from sktime.utils.data_processing import from_nested_to_3d_numpy
             Xn = from_nested_to_3d_numpy(Xn)
         if op == "pad":
             from sktime.transformations.panel.padder import PaddingTransformer
-            out = mk(PaddingTransformer, dict(pad_length=p["L"] or None, fill_value=p["fill"]), dict(pad_length=50, fill_value=-9)).fit_transform(Xn)
+            out = mk(PaddingTransformer, dict(pad_length=p["L"] or None, fill_value=p["fill"]), dict(pad_length=50, fill_value=-9))
+            out = fitted(out).transform(Xn) if variant % 2 or p.get("fit") else out.fit_transform(Xn)
         elif op == "truncate":
             from sktime.transformations.panel.truncation import TruncationTransformer
-            out = mk(TruncationTransformer, dict(lower=p["lo"] or None, upper=p["hi"] or None), dict(lower=1, upper=2)).fit_transform(Xn)
+            out = mk(TruncationTransformer, dict(lower=p["lo"] or None, upper=p["hi"] or None), dict(lower=1, upper=2))
+            out = fitted(out).transform(Xn) if variant % 2 or p.get("fit") else out.fit_transform(Xn)
         elif op == "interpolate":
             from sktime.transformations.panel.interpolate import TSInterpolator
             out = mk(TSInterpolator, dict(length=p["L"]), dict(length=11)).fit_transform(Xn)
@@ -116,6 +123,10 @@ def observe_rife(X, n_intervals, seed, cells):
     iv = [[int(a), int(b)] for a, b in tr.intervals_]
     a = np.asarray(out, dtype=float)
     k = len(iv)
+    # documented labels <start>_<end>_<function>, feature-major like the values
+    want = ["%d_%d_%s" % (a_, b_, f.__name__) for f in (np.mean, np.std, _slope) for a_, b_ in iv]
+    if [str(c) for c in out.columns] != want:
+        raise AssertionError("column labels %s do not name the columns' contents %s" % (list(out.columns)[:6], want[:6]))
     rows = []
     for row in a:
         cell = [rational(float(v)) or [] for v in row[:k]] + [rational(float(v) ** 2) or [] for v in row[k:2 * k]] + \
@@ -128,7 +139,7 @@ def val(i, c, t, salt):
     return ((7 * i + 3 * c + 5 * t * t + t + 4 * salt * (t + i)) % 11) - 3
 
 
-NOP = {"L": 0, "fill": 0, "lo": 0, "hi": 0, "k": 1, "w": 1, "method": "", "const": 0, "iv": []}
+NOP = {"L": 0, "fill": 0, "lo": 0, "hi": 0, "k": 1, "w": 1, "method": "", "const": 0, "iv": [], "fit": 0}
 
 
 def random_case(rng):
@@ -150,10 +161,13 @@ def random_case(rng):
     if op == "pad":
         p["L"] = rng.choice([0, max(lens), max(lens) + rng.randint(1, 4)])
         p["fill"] = rng.choice([0, -1, 5])
+        if p["L"] == 0 and rng.random() < 0.5:
+            p["fit"] = max(lens) + rng.randint(0, 3)
     elif op == "truncate":
         m = min(lens)
         if rng.random() < 0.4:
-            pass
+            if rng.random() < 0.5:
+                p["fit"] = rng.randint(1, m)
         elif rng.random() < 0.5:
             p["lo"] = rng.randint(1, m)
         else:
